@@ -26,6 +26,8 @@ var harnesses = map[string]func(*vsched.H){
 	"NIP11Chain":           harness.NIP11Chain,
 	"CacheConcurrent":      harness.CacheConcurrent,
 	"VerifyConcurrent":     harness.VerifyConcurrent,
+	"MergeTwoSessions":     harness.MergeTwoSessions,
+	"NIP11Concurrent":      harness.NIP11Concurrent,
 	"CacheHandlerSessions": harness.CacheHandlerSessions,
 }
 
